@@ -78,6 +78,10 @@ def run(ctx):
     lits = [c.value for n in walk_no_nested(ini.node) if isinstance(n, ast.If) and "expectation" in src(n.test) for c in ast.walk(n.test) if isinstance(c, ast.Constant) and isinstance(c.value, str)]
     ctx.ob("R-SIB", "C02.1", ini, "the integrator accepts exactly the modes {'t','logt'} (lower-cased)", set(lits) == {"t", "logt"} and ".lower()" in src(ini.node), f"{lits}")
     ctx.ob("R-SIB", "C02.1", cw, "compute_weights rejects any other mode", any(isinstance(n, ast.Raise) for n in walk_no_nested(cw.node)), "")
+    # an option attribute that is compared as stored must be stored normalised (class-level R-NORM)
+    from ..rules import optnorm as _on2
+    for _f, _n, _ok, _why in _on2.scan_attributes(prog):
+        ctx.ob("R-NORM", "C02.1", _f, "an option that is accepted case-insensitively and compared as stored is stored in its normalised spelling", _ok, _why, node=_n)
     ctx.floor("C02.1", 8)
 
     # ---- C02.2 final live-point schedule -----------------------------------
